@@ -9,7 +9,7 @@ from framelint.canon import (Canon, CanonOptions, canon_function, show, S, to_po
                              k_str, contains, skey, atoms_of, Sigma, diff_paths, mk_call)
 from framelint.cfg import EXIT, ENTRY
 from framelint.kinds import IndexSpec, IndexTyper
-from .common import (GEOM, DIE, PARSE_DIE, YWRITE, sigma_xy, stmt_calls, exit_facts, facts_text, call_name, norm_stmt,
+from .common import (eq_constants, GEOM, DIE, PARSE_DIE, YWRITE, sigma_xy, stmt_calls, exit_facts, facts_text, call_name, norm_stmt,
                      attr_stores_in_repo, mutating_calls_on_attr, assert_conjuncts, enclosing_loops, is_eps_atom,
                      kw_value, check_closed)
 
@@ -365,8 +365,8 @@ def r3(ctx: Ctx) -> None:
         loops = enclosing_loops(fp, a)
         if loops and isinstance(loops[-1], ast.For):
             for t in conj:
-                if t[0] == "cmp" and t[1] == "in" and t[3][0] in ("list", "tuple", "set") and \
-                        set(t[3][1]) == {KW["KW_WIDTH"], KW["KW_HEIGHT"], KW["KW_REGIONS"]}:
+                kvar = g.canon().expr_store(loops[-1].target)
+                if eq_constants(t, kvar) == {KW["KW_WIDTH"], KW["KW_HEIGHT"], KW["KW_REGIONS"]}:
                     it = g.canon().expr(loops[-1].iter)
                     if it == tree or it == ("c", ("a", tree, "keys"), (), ()):
                         ok_keys = True
